@@ -32,21 +32,34 @@ CONFIGS = {
     },
 }
 
+NORACE = {"queries": ["mutex", "deadlock", "panic", "try"]}
+RACE = {"queries": ["race"]}
 CONFIGS["C02"] = {
     "kind": "rwlock",
+    # the happens-before (race) query is several times more expensive than the others: it runs at a smaller K
     "quick": [
-        (["rw_read", "rw_write"], 24, 1500),
-        (["rw_write", "rw_write"], 24, 1500),
-        (["rw_read", "rw_read"], 20, 900),
-        (["rw_try_read", "rw_write"], 20, 900),
-        (["rw_try_write", "rw_read"], 20, 900),
+        (["rw_read", "rw_write"], 20, 1500, NORACE),
+        (["rw_read", "rw_write"], 16, 1500, RACE),
+        (["rw_write", "rw_write"], 20, 1500, NORACE),
+        (["rw_write", "rw_write"], 16, 1500, RACE),
+        (["rw_read", "rw_read"], 18, 900, NORACE),
+        (["rw_try_read", "rw_write"], 18, 900, NORACE),
+        (["rw_try_write", "rw_read"], 18, 900, NORACE),
+        # bug hunting only: three threads (two writers and a reader: the writer-or-readers hand-off); a lost wake-up shows
+        # as sat within minutes, but unsat is out of reach of the solver at this size - no verdict is recorded as undecided
+        (["rw_write", "rw_write", "rw_read"], 20, 900, {"queries": ["deadlock"], "hunt": True}),
     ],
     "thorough": [
-        (["rw_read", "rw_write"], 32, 3400),
-        (["rw_write", "rw_write"], 32, 3400),
-        (["rw_read", "rw_read", "rw_write"], 22, 3400),
-        (["rw_read", "rw_write", "rw_write"], 22, 3400),
-        (["rw_try_read", "rw_try_write", "rw_write"], 20, 3400),
+        (["rw_read", "rw_write"], 28, 3400, NORACE),
+        (["rw_write", "rw_write"], 28, 3400, NORACE),
+        (["rw_read", "rw_write"], 20, 3400, RACE),
+        (["rw_write", "rw_write"], 20, 3400, RACE),
+        (["rw_read", "rw_read"], 24, 3400, NORACE),
+        (["rw_try_read", "rw_write"], 24, 3400),
+        (["rw_try_write", "rw_read"], 24, 3400),
+        (["rw_write", "rw_write", "rw_read"], 26, 3400, {"queries": ["deadlock", "mutex"], "hunt": True}),
+        (["rw_read", "rw_read", "rw_write"], 22, 3400, {"queries": ["deadlock", "mutex"], "hunt": True}),
+        (["rw_try_read", "rw_try_write", "rw_write"], 20, 3400, {"queries": ["deadlock", "mutex", "try"], "hunt": True}),
     ],
 }
 
@@ -73,16 +86,20 @@ def check(prop, tier, seed, jobs=None):
     log("[M] MIR regenerated from %s: tiny_std %.1fs, programs %.1fs" % (mrun.REPO, mirs["tiny_std_s"], mirs["programs_s"]))
     tasks = []
     for tr in tiers:
-        for progs, K, to in cfg[tr]:
-            tasks.append(dict(kind=cfg["kind"], progs=progs, K=K, query="reach", timeout=min(to, 600), mirs=mirs, tier=tr))
-            for q in QUERIES:
+        for ent in cfg[tr]:
+            progs, K, to = ent[0], ent[1], ent[2]
+            opts = ent[3] if len(ent) > 3 else {}
+            hunt = bool(opts.get("hunt"))
+            if not hunt:
+                tasks.append(dict(kind=cfg["kind"], progs=progs, K=K, query="reach", timeout=min(to, 600), mirs=mirs, tier=tr, hunt=False))
+            for q in opts.get("queries", QUERIES):
                 if q == "try" and not any("try" in p for p in progs):
                     continue
-                tasks.append(dict(kind=cfg["kind"], progs=progs, K=K, query=q, timeout=to, mirs=mirs, tier=tr))
+                tasks.append(dict(kind=cfg["kind"], progs=progs, K=K, query=q, timeout=to, mirs=mirs, tier=tr, hunt=hunt))
     tasks.sort(key=lambda t: -t["timeout"])
     jobs = jobs or int(os.environ.get("VERIF_JOBS", max(2, NCPU - 2)))
     results = mrun.run_tasks(tasks, jobs)
-    violations, inconclusive = [], []
+    violations, inconclusive, undecided = [], [], []
     os.makedirs(REPLAY_DIR, exist_ok=True)
     for r in results:
         name = "%s K=%d %s" % ("+".join(r["progs"]), r["K"], r["query"])
@@ -90,7 +107,9 @@ def check(prop, tier, seed, jobs=None):
             path = os.path.join(REPLAY_DIR, "%s__static__%s.json" % (prop, "_".join(r["progs"])))
             json.dump({"property": prop, "engine": "M", "static_violations": r["static_violations"]}, open(path, "w"), indent=1)
             violations.append((name, path, "; ".join(r["static_violations"])))
-        if r["result"] in ("error", "unknown", None):
+        if r.get("hunt") and r["result"] in ("unknown", None):
+            undecided.append(name)
+        elif r["result"] in ("error", "unknown", None):
             inconclusive.append((name, r.get("error") or "solver gave no verdict within %ds" % r["timeout"]))
         elif r["query"] == "reach":
             if r["result"] != "sat":
@@ -106,11 +125,13 @@ def check(prop, tier, seed, jobs=None):
         log("  %s: %s" % (name, why))
     for name, why in inconclusive:
         log("INCONCLUSIVE property=%s query=%s %s" % (prop, name, str(why)[:300]))
+    for name in undecided:
+        log("UNDECIDED (bug-hunting query, not counted): %s" % name)
     bad_q = [r for r in results if r["query"] != "reach"]
     reach = [r for r in results if r["query"] == "reach"]
     nontrivial_cfgs = set("+".join(r["progs"]) + str(r["K"]) for r in reach if r["result"] == "sat")
     samples = [{k: v for k, v in r.items() if k in ("kind", "progs", "K", "query", "result", "solve_s", "build_s", "cps", "paths", "state_bits",
-                                                    "tier", "violated")} for r in sorted(results, key=lambda r: (r["progs"], r["K"], r["query"]))]
+                                                    "tier", "violated", "hunt")} for r in sorted(results, key=lambda r: (r["progs"], r["K"], r["query"]))]
     funcs = sorted(set(f for r in results for f in r.get("functions", [])))
     coverage = {
         "evaluations": len(results),
@@ -130,7 +151,8 @@ def check(prop, tier, seed, jobs=None):
         "functions_encoded": funcs,
         "trusted_calls": sorted(set(f for r in results for f in r.get("trusted_calls", []))),
         "spin_rewritten_in": sorted(set(f for r in results for f in r.get("spin_rewritten", []))),
-        "bounds": ["%s: K=%d visible steps" % ("+".join(p), k) for tr in tiers for p, k, _ in cfg[tr]],
+        "bounds": ["%s: K=%d visible steps%s" % ("+".join(e[0]), e[1], (" " + json.dumps(e[3])) if len(e) > 3 else "") for tr in tiers for e in cfg[tr]],
+        "undecided_bug_hunting_queries": undecided,
         "outside_claim": ["schedules longer than K visible steps", "more threads than listed", "fairness / starvation",
                           "non-SC behaviours of relaxed atomics", "counterexample schedules are reported from the model (step list in the replay file); native replay by a deterministic scheduler is not implemented"],
         "inconclusive": ["%s: %s" % (n, str(w)[:200]) for n, w in inconclusive],
